@@ -23,14 +23,24 @@ theorem globcache_slow_path_is_locked :
     globGetUnlocked = getRepairedUnlocked ∧ globGetLocked = getRepairedLocked ∧
     globOtherAccessors = [] := by decide
 
-/-- The shared writes on the lookup path (functions reachable from `Table.Lookup`/`LookupHost`, pickers and
-matchers included; writes to per-request copies excluded) are exactly the model's: the atomic cursor add and
-the cache bookkeeping under the lock. -/
+/-- The shared writes on the lookup path are exactly the model's: the atomic cursor add and the cache
+bookkeeping under the lock.  Collected over everything reachable inside package `route` from `Table.Lookup`,
+`Table.LookupHost`, the pickers and matchers, and the `Target` methods `ServeHTTP` calls
+(`AccessDeniedHTTP`, `Authorized`): every assignment / `++` / `delete` / atomic op whose destination is memory
+of an in-package type or a package-level variable, and every call of a method that is not known to be
+read-only on a receiver rooted in such memory — directly, through a local alias (`c := target.cache;
+c.Store(…)`), or through a pointer field of a shallow per-request copy.  Only a field of the per-request copy
+itself, or memory the function freshly allocated on it, counts as `copy` and is excluded.  A new cache, counter,
+`sync.Once`, `atomic.Value` or `sync.Map` consulted on the lookup path breaks this obligation. -/
 theorem lookup_writes_pinned :
     lookupWrites.filter (fun w => w.2.1 != "copy") = lookupSharedWrites := by decide
 
-/-- `HTTPProxy.ServeHTTP` assigns nothing through the target it was handed. -/
-theorem proxy_does_not_write_target : proxyTargetWrites = [] := by decide
+/-- `HTTPProxy.ServeHTTP` assigns nothing through the target it was handed; the only `Target` methods it calls
+are on the analysed lookup path; the only other method it calls through the target that is not read-only is the
+response-time metric; the only reference it takes out of the target is the transport it hands the request to. -/
+theorem proxy_does_not_write_target :
+    proxyTargetWrites = [] ∧ proxyTargetMethods.all (fun m => lookupReach.contains m) = true ∧
+    proxyTargetCalls = ["t.Timer.Observe"] ∧ proxyTargetAliases = ["tr := t.Transport"] := by decide
 
 /-- The functions the write set was collected from still include the anchors of the property. -/
 theorem lookup_reach_covers_anchors :
